@@ -29,6 +29,9 @@
 // For terminate the noexcept barrier (frame that called __clang_call_terminate) is appended as |in=...; for a signal
 // the crash site is used instead of the throw site.
 // LDLIBS: -ldl
+// CXXFLAGS: -DNDEBUG
+// (-DNDEBUG: the library is built with it; inline/template code of the library headers that is instantiated here replaces
+//  the library's own copies at load time, so it has to be the same code - without assert().)
 #include "common.hpp"
 #include "isolate.hpp"
 
@@ -93,6 +96,8 @@ struct Report
     volatile long long  heapDelta;          // heap bytes not owned by the manager: after - before
     volatile int        nThrow;  void* throwBt[MAXBT];     // stack inside allocate() at the injected throw
     volatile int        nCrash;  void* crashBt[MAXBT];     // stack at terminate / signal / foreign free
+    volatile int        nCatch;  void* catchBt[12];        // stack at the LAST catch of a std::bad_alloc after the injected throw
+    volatile int        catches;                           // number of such catches (catch + rethrow counts each time)
     char                step[48];           // step in flight
     char                exc[96];            // exception type that reached the caller
     char                msg[600];           // free text
@@ -101,6 +106,7 @@ struct Report
 };
 
 Report* g_rep = 0;
+volatile int g_recordCatches = 0;     // child: the case body is running
 
 void setStr(char* dst, size_t cap, const char* s)
 {
@@ -741,7 +747,9 @@ void childRunCase(const Case& cs, long long failAt)
     const size_t h0 = heapNow();
     {
         FailingManager m(failAt);
+        g_recordCatches = 1;
         exc = guarded([&]() { runCaseBody(cs, m, *rec, *warnBuf, *warnStream, *resolver); }, excMsg, sizeof excMsg);
+        g_recordCatches = 0;
         allocs = m.m_allocs; outstanding = (long long)m.m_live.size(); foreign = m.m_foreign; dbl = m.m_double; fired = m.m_fired;
     }   // manager discarded: whatever was outstanding is reclaimed
     const size_t h1 = heapNow();
@@ -795,10 +803,15 @@ void childRunInit(const Case& cs, long long failAt)
     bool fired = false, goldenOk = false;
     std::string why;
     const char* exc = 0;
+    // The initialisation manager is deliberately NOT discarded before the process ends: whatever a failed
+    // initialize() leaves in static storage keeps pointing at live blocks, so a use-after-free seen later is the
+    // library's own (freed by its roll-back, still referenced), not an artefact of discarding.
+    FailingManager& m = *new FailingManager(failAt);
     {
-        FailingManager m(failAt);
         setStr(r.step, sizeof r.step, "initialize");
+        g_recordCatches = 1;
         exc = guarded([&]() { XalanTransformer::initialize(m); }, excMsg, sizeof excMsg);
+        g_recordCatches = 0;
         if (exc == 0)
         {
             goldenOk = runGolden(why);
@@ -848,7 +861,8 @@ struct RunResult
     int                 sig;
     bool                fired;
     long long           allocs, outstanding, heapDelta;
-    std::vector<void*>  throwBt, crashBt;
+    std::vector<void*>  throwBt, crashBt, catchBt;
+    int                 catches;
     std::string         step, exc, msg, stderrText, result;
     std::string outcomeName() const
     {
@@ -880,6 +894,8 @@ RunResult forkRun(const Case& cs, long long failAt)
     rr.allocs = g_rep->allocs; rr.outstanding = g_rep->outstanding; rr.heapDelta = g_rep->heapDelta;
     rr.throwBt.assign(g_rep->throwBt, g_rep->throwBt + std::min<int>((int)g_rep->nThrow, MAXBT));
     rr.crashBt.assign(g_rep->crashBt, g_rep->crashBt + std::min<int>((int)g_rep->nCrash, MAXBT));
+    rr.catchBt.assign(g_rep->catchBt, g_rep->catchBt + std::min<int>((int)g_rep->nCatch, 12));
+    rr.catches = g_rep->catches;
     g_rep->step[sizeof g_rep->step - 1] = 0; g_rep->exc[sizeof g_rep->exc - 1] = 0; g_rep->msg[sizeof g_rep->msg - 1] = 0;
     rr.step = g_rep->step; rr.exc = g_rep->exc; rr.msg = g_rep->msg;
     if (g_rep->resultLen > 0) rr.result.assign(g_rep->result, g_rep->resultLen);
@@ -1131,6 +1147,8 @@ std::string terminateBarrier(Symboliser& sy, const std::vector<void*>& bt)
     return "unwinder";       // terminate called by the unwinder itself (no handler found / throw while unwinding)
 }
 
+std::string signatureCore(Symboliser& sy, const RunResult& rr);
+
 std::string ubsanLine(const std::string& err)
 {
     size_t p = err.find("runtime error:");
@@ -1149,11 +1167,32 @@ std::string ubsanLine(const std::string& err)
     return o;
 }
 
-std::string signatureOf(Symboliser& sy, const RunResult& rr)
+// the function whose handler caught the injected std::bad_alloc last
+std::string catcherName(Symboliser& sy, const std::vector<void*>& bt)
+{
+    if (bt.empty()) return "nowhere";
+    std::vector<std::pair<std::string, FrameKind> > v = flatten(sy, bt, 6);
+    for (size_t i = 0; i < v.size(); ++i)
+    {
+        if (v[i].second == F_OTHER) continue;       // backtrace, __cxa_begin_catch
+        return v[i].second == F_HARNESS ? "harness" : v[i].first;
+    }
+    return "unknown";
+}
+
+std::string signatureOf(Symboliser& sy, const RunResult& rr, bool initCase)
+{
+    const std::string core = signatureCore(sy, rr);
+    return initCase ? "init:" + core : core;
+}
+
+std::string signatureCore(Symboliser& sy, const RunResult& rr)
 {
     const std::string site = throwSiteChain(sy, rr.throwBt);
     switch (rr.outcome)
     {
+    case O_SWALLOWED_WRONG:
+    case O_SILENT_ERROR:    return rr.outcomeName() + "|caught-in=" + catcherName(sy, rr.catchBt);
     case O_TERMINATE:   return "terminate|" + site + "|in=" + terminateBarrier(sy, rr.crashBt);
     case O_SIGNAL:      return "signal" + std::to_string(rr.sig) + "|at=" + crashSiteChain(sy, rr.crashBt) + "|after-throw-at=" + site;
     case O_ASAN:        return "asan|" + rr.msg + "|after-throw-at=" + site;
@@ -1283,6 +1322,7 @@ struct Engine
         if (!rr.exc.empty()) d += ",\"exception\":" + jsonStr(rr.exc);
         if (!rr.msg.empty()) d += ",\"message\":" + jsonStr(rr.msg);
         d += ",\"throw_site\":" + jsonStr(renderStack(sy, std::vector<void*>(rr.throwBt.begin(), rr.throwBt.begin() + std::min<size_t>(rr.throwBt.size(), 24)), false));
+        if (!rr.catchBt.empty()) d += ",\"bad_alloc_last_caught_in\":" + jsonStr(catcherName(sy, rr.catchBt)) + ",\"bad_alloc_catches\":" + std::to_string(rr.catches);
         if (!rr.crashBt.empty())
             d += ",\"crash_site\":" + jsonStr(renderStack(sy, std::vector<void*>(rr.crashBt.begin(), rr.crashBt.begin() + std::min<size_t>(rr.crashBt.size(), 16)), false));
         if (!rr.stderrText.empty()) d += ",\"stderr\":" + jsonStr(rr.stderrText.substr(0, 1500));
@@ -1354,6 +1394,7 @@ struct Engine
         {
             addrs.insert(p.rr.throwBt.begin(), p.rr.throwBt.end());
             addrs.insert(p.rr.crashBt.begin(), p.rr.crashBt.end());
+            if (isViolation(p.rr.outcome)) addrs.insert(p.rr.catchBt.begin(), p.rr.catchBt.end());
         }
         sy.resolve(addrs);
         size_t nSamples = 0;
@@ -1373,7 +1414,7 @@ struct Engine
             std::string ub = ubsanLine(rr.stderrText);
             if (isViolation(rr.outcome))
             {
-                viol(c, p.k, rr, signatureOf(sy, rr));
+                viol(c, p.k, rr, signatureOf(sy, rr, c.init));
             }
             else if (!ub.empty())
             {
@@ -1448,13 +1489,15 @@ int replayMain(const std::string& caseName, long long k)
         Symboliser sy;
         std::set<void*> a(rr.throwBt.begin(), rr.throwBt.end());
         a.insert(rr.crashBt.begin(), rr.crashBt.end());
+        a.insert(rr.catchBt.begin(), rr.catchBt.end());
         sy.resolve(a);
         printf("k=%lld: outcome %s%s%s (step in flight: %s; allocations made %lld; blocks left to the manager %lld; heap delta %lld)\n",
                k, rr.outcomeName().c_str(), rr.exc.empty() ? "" : ", exception ", rr.exc.c_str(), rr.step.c_str(), rr.allocs, rr.outstanding, rr.heapDelta);
         if (!rr.msg.empty()) printf("message: %s\n", rr.msg.c_str());
         printf("verdict: %s\n", isViolation(rr.outcome) ? "VIOLATION" : "ok");
-        printf("signature: %s\n", isViolation(rr.outcome) ? signatureOf(sy, rr).c_str() : (rr.outcomeName() + "|" + throwSiteChain(sy, rr.throwBt)).c_str());
+        printf("signature: %s\n", isViolation(rr.outcome) ? signatureOf(sy, rr, cs.init).c_str() : (rr.outcomeName() + "|" + throwSiteChain(sy, rr.throwBt)).c_str());
         printf("throw site (stack inside allocate() number %lld):\n%s", k, renderStack(sy, rr.throwBt, true).c_str());
+        if (!rr.catchBt.empty()) printf("the injected std::bad_alloc was caught %d time(s), last in: %s\n%s", rr.catches, catcherName(sy, rr.catchBt).c_str(), renderStack(sy, rr.catchBt, true).c_str());
         if (!rr.crashBt.empty()) printf("stack at %s:\n%s", rr.outcomeName().c_str(), renderStack(sy, rr.crashBt, true).c_str());
         if (!rr.stderrText.empty()) printf("stderr of the run:\n%s\n", rr.stderrText.c_str());
         if (isViolation(rr.outcome)) rcode = 1;
@@ -1465,6 +1508,27 @@ int replayMain(const std::string& caseName, long long k)
 }
 
 } // namespace
+
+// Where did the injected std::bad_alloc stop being a std::bad_alloc? The C++ runtime's __cxa_begin_catch is interposed
+// (the executable's definition wins for the library's calls as well): after the armed allocation has thrown, every catch
+// whose exception type is std::bad_alloc records its stack; the last one is the handler that did not rethrow it as such -
+// the harness' own catch (surfaced), or the library handler that swallowed or converted it.
+extern "C" void* __cxa_begin_catch(void* exc) noexcept
+{
+    typedef void* (*Fn)(void*);
+    static Fn real = (Fn)dlsym(RTLD_NEXT, "__cxa_begin_catch");
+    void* const r = real(exc);
+    if (g_recordCatches && g_rep != 0 && g_rep->fired)
+    {
+        const std::type_info* t = abi::__cxa_current_exception_type();
+        if (t != 0 && *t == typeid(std::bad_alloc))
+        {
+            g_rep->catches = g_rep->catches + 1;
+            g_rep->nCatch = backtrace(g_rep->catchBt, 12);
+        }
+    }
+    return r;
+}
 
 // AddressSanitizer calls this (weak hook) when it is about to report an error
 extern "C" const char* __asan_get_report_description();
